@@ -331,7 +331,11 @@ class LiteralMethod(DeserializationMethod):
 
     def deserialize(self, data: Any) -> Any:
         try:
-            return self.value_map[data]
+            value = self.value_map[data]
+            if data.__class__ in self.types:
+                return value
+            # hash-equal value of another class (True for 1, 1.0 for 1)
+            raise KeyError(data)
         except KeyError:
             if self.coercer is not None:
                 for cls in self.types:
